@@ -139,22 +139,25 @@ def s13_result_arity(ctx):
 
 
 def _ok_payload_call(tree):
-    """If `tree` is the Ok/Continue payload of a (chain of payload-preserving wrappers around a)
-    call, return that innermost call tree; else None."""
+    """If `tree` is the Ok/Continue/Some payload of a (chain of payload-preserving wrappers around a) call, return that innermost
+    call tree; else None.  Wrappers: `?` (Try::branch), map_err / or_else, re-wrapping `Ok(x)` / `Some(x)`, and taking the payload again."""
     t = tree
-    # strip plain copies
-    for _ in range(10):
+    saw_payload = False
+    for _ in range(24):
+        while isinstance(t, tuple) and t and t[0] in ('ref', 'deref'):
+            t = t[1]
         if t[0] == 'field' and t[2] == '0' and t[1][0] == 'as' and t[1][2] in ('Ok', 'Continue', 'Some'):
-            inner = t[1][1]
-            # unwrap preserving calls
-            for _ in range(6):
-                if inner[0] == 'call' and _ok_preserving(inner[4]):
-                    inner = inner[2][0]
-                    continue
-                break
-            return inner if inner[0] == 'call' else None
-        return None
-    return None
+            t = t[1][1]
+            saw_payload = True
+            continue
+        if t[0] == 'call' and _ok_preserving(t[4]) and t[2]:
+            t = t[2][0]
+            continue
+        if t[0] == 'agg' and t[1] == 'adt' and str(t[2]).endswith(('Result::Ok', 'Option::Some')) and len(t[3]) == 1:
+            t = t[3][0]
+            continue
+        break
+    return t if (saw_payload and t[0] == 'call') else None
 
 
 def _parse_through_helper(f, call, value_arg, depth=0):
@@ -210,12 +213,36 @@ def _mentions_arg(tree, idx):
     return any(t[0] == 'arg' and t[1] == idx for t in walk_tree(tree))
 
 
+def _reaches_literal_tests(f, body, depth=0, seen=None):
+    """does the function or a crate-local function it calls compare a string with a literal (`==`, `!=`, `match` on &str)?"""
+    if seen is None:
+        seen = set()
+    if body is None or body.id in seen or depth > 3:
+        return False
+    seen.add(body.id)
+    for bi, t in body.calls():
+        c = t['callee']
+        nm = c.get('name')
+        d = callee_def(c) or ''
+        if nm in ('eq', 'ne') and 'PartialEq' in (c.get('trait') or d):
+            for a in t['args']:
+                tr = body.tree_of_operand(a)
+                if any(isinstance(x, tuple) and x and (x[0] == 'str' or (x[0] == 'const' and len(x) > 2 and x[2] == 'promoted')) for x in walk_tree(tr)):
+                    return True
+        if c.get('local') and c.get('def'):
+            hb = f.generic_body(d)
+            if hb is not None and _reaches_literal_tests(f, Body(hb), depth + 1, seen):
+                return True
+    return False
+
+
 def s14_set_arms(ctx):
     f = ctx.facts()
     m = Model(f)
     r = RuleResult('S14', 'set(name, text): one arm per public parameter, writing only that parameter from the parsed text; '
                           'Err and no write otherwise')
     n_cfg = n_fields = n_arms = 0
+    n_table_driven = 0
     for ci in m.config_impls:
         cname = m.short(ci)
         adt = m.adt_of_impl(ci)
@@ -226,7 +253,7 @@ def s14_set_arms(ctx):
         pub = [x['name'] for x in fields if x['vis'] == 'pub']
         allf = [x['name'] for x in fields]
         n_fields += len(pub)
-        body = m.body(m.impl_fn_path(ci, 'set'), prefer_mono=True)
+        body = m.body_inlined(m.impl_fn_path(ci, 'set'), prefer_mono=True)
         if body is None:
             raise Broken('no body for %s::set' % cname)
         # locate name/value args: by type (&str, String)
@@ -249,13 +276,18 @@ def s14_set_arms(ctx):
         for p in paths:
             if not path_ends_in_return(body, p):
                 continue
+            from paths import PathFacts as _PF
+            pfp = _PF(body, p)
+            if pfp.infeasible:
+                continue        # contradicts an enum / boolean value the path itself fixed (name looked up through an inlined helper)
+            env = pfp.env
             true_lits, false_lits = [], []
             other_conds = 0
             for a, b in zip(p, p[1:]):
                 t = body.blocks[a]['term']
                 if t['t'] != 'switch':
                     continue
-                dt = body.tree_of_operand(t['discr'])
+                dt = body.tree_of_operand(t['discr'], 0, env)
                 lit = _str_eq_literal(dt, name_arg, f)
                 if lit is None:
                     other_conds += 1
@@ -271,7 +303,7 @@ def s14_set_arms(ctx):
                     if s['s'] == 'assign':
                         fp = self_field_of_place(s['pl'])
                         if fp is not None:
-                            writes.append((fp, body.tree_of_rvalue(s['rv']), s['sp']['l']))
+                            writes.append((fp, body.tree_of_rvalue(s['rv'], 0, env), s['sp']['l']))
                     elif s['s'] == 'setdiscr' and self_field_of_place(s['pl']) is not None:
                         writes.append((self_field_of_place(s['pl']), ('setdiscr',), s['sp']['l']))
                 t = body.blocks[bi]['term']
@@ -291,6 +323,12 @@ def s14_set_arms(ctx):
                 arms.setdefault(true_lits[0], []).append(info)
             else:
                 default.append(info)
+        if pub and not arms and not _reaches_literal_tests(f, body):
+            # set() compares the name with no string literal, here or in any crate function it calls: the parameter names live in a data
+            # table searched at run time (or in an enum parsed elsewhere); which name changes which field is not decided for this config
+            r.undecided.append('%s::set looks parameter names up in a data table: name -> field mapping not decided' % cname)
+            n_table_driven += 1
+            continue
         # (1) every pub field has an arm
         for fld in pub:
             key = '%s|%s' % (cname, fld)
@@ -345,7 +383,9 @@ def s14_set_arms(ctx):
                 r.violate('%s|<default>|write|%s' % (cname, '.'.join(fp)), 'set() with an unknown name writes field `%s`' % '.'.join(fp), body.file, line)
     r.floor('configs', 37, n_cfg)
     r.floor('public fields', 131, n_fields)
-    r.floor('arms', 128, n_arms)
+    # a few table-driven set() functions are tolerated (listed under `undecided`), a wholesale loss of the arms is not
+    r.floor('arms', 100, n_arms)
+    r.info['table_driven_set'] = n_table_driven
     r.info.update({'configs': n_cfg, 'public_fields': n_fields, 'arms': n_arms})
     return r
 
